@@ -31,6 +31,23 @@ pub struct Swarm {
     pub max_next: u8,
     pub client_mix: [u32; 7],
     pub long_chain: bool,
+    pub script: Option<LongScript>,
+}
+
+/// Scripted generator for long two-branch histories (testnet/regtest depth bound, retargets).
+#[derive(Clone, Debug, Default)]
+pub struct LongScript {
+    pub queue: std::collections::VecDeque<Event>,
+    pub a_tip: usize,
+    pub b_tip: usize,
+    pub a_len: u32,
+    pub b_len: u32,
+    pub race_until: u32,
+    pub max_lead_in_race: u32,
+    pub pull_ahead_to: u32,
+    pub done: bool,
+    pub finished: bool,
+    pub single_branch: bool,
 }
 
 pub fn profile_networks(profile: &str) -> &'static [&'static str] {
@@ -77,6 +94,7 @@ pub fn draw_config(profile: &str, seed: u64, tier_thorough: bool) -> (RunConfig,
         max_next: rng.range(0, 12) as u8,
         client_mix: [0; 7],
         long_chain: false,
+        script: None,
     };
     if network != "regtest" {
         // natural difficulties only vary through retargets; use overrides on all networks
@@ -126,6 +144,26 @@ pub fn draw_config(profile: &str, seed: u64, tier_thorough: bool) -> (RunConfig,
             sw.fault_cfg = true;
         }
         _ => {}
+    }
+    let mut threshold = threshold;
+    let mut network = network;
+    if profile == "C03" && rng.chance(if tier_thorough { 1 } else { 1 }, if tier_thorough { 12 } else { 60 }) {
+        // long two-branch history reaching the testnet/regtest depth bound
+        sw.long_chain = true;
+        sw.max_events = 6000;
+        sw.tx_density = 0;
+        sw.upgrades = false;
+        sw.fault_cfg = false;
+        network = rng.pick(&["regtest", "regtest", "testnet"]).to_string();
+        threshold = *rng.pick(&[144u32, 400, 499, 500, 600, 600, 2000]);
+        let race_until = *rng.pick(&[300u32, 900, 1520, 1560, 1600]);
+        sw.script = Some(LongScript {
+            race_until,
+            max_lead_in_race: *rng.pick(&[100u32, 300, 460, 480]),
+            pull_ahead_to: 640,
+            single_branch: rng.chance(1, 6),
+            ..Default::default()
+        });
     }
     let lazy_fees = rng.chance(1, 2);
     let sync_flag = profile == "C14" && rng.chance(3, 4);
@@ -235,6 +273,22 @@ fn draw_reply(sw: &Swarm, w: &World, rng: &mut Rng) -> ReplySpec {
             block,
             follow_ups,
             max_next: rng.below(3) as u8,
+        };
+    }
+    if sw.fault_adapter && rng.chance(1, 7) && ids.len() > 1 {
+        // the honest answer with one poisoned element: everything after it must have no effect
+        let id = *rng.pick(&ids);
+        let poison = match rng.below(8) {
+            0 => BlockOffer::Truncated(id, rng.below(200) as u32),
+            1 => BlockOffer::Garbage(rng.next_u64(), rng.below(300) as u32),
+            2 => BlockOffer::Empty,
+            _ => BlockOffer::Block(id), // duplicate, orphan, stable-only parent or invalid block
+        };
+        return ReplySpec::HonestPoisoned {
+            max_blocks: sw.max_blocks,
+            max_next: sw.max_next.max(2),
+            poison,
+            at: rng.below(3) as u8,
         };
     }
     if sw.fault_adapter && rng.chance(1, 6) && ids.len() > 1 {
@@ -349,8 +403,90 @@ fn draw_mine(sw: &Swarm, w: &World, rng: &mut Rng) -> Event {
     })
 }
 
+fn long_next(sw: &mut Swarm, w: &World, rng: &mut Rng) -> Event {
+    let sc = sw.script.as_mut().unwrap();
+    if let Some(ev) = sc.queue.pop_front() {
+        // never start a heartbeat while a reply is outstanding; never deliver without a task
+        return match ev {
+            Event::Deliver { .. } if w.tasks.is_empty() => Event::Heartbeat { pause_at: 0 },
+            other => other,
+        };
+    }
+    if sc.done {
+        sc.finished = true;
+        return Event::Heartbeat { pause_at: 0 };
+    }
+    let total = sc.a_len + sc.b_len;
+    let mut next_id = w.net.blocks.keys().max().copied().unwrap_or(0) + 1;
+    let lead = sc.a_len as i64 - sc.b_len as i64;
+    // choose branch and chunk
+    let (on_a, k): (bool, u32) = if total < sc.race_until && !sc.single_branch {
+        let k = rng.range(10, 90) as u32;
+        let prefer_a = rng.chance(11, 20);
+        let on_a = if lead + k as i64 > sc.max_lead_in_race as i64 {
+            false
+        } else if -lead + k as i64 > sc.max_lead_in_race as i64 {
+            true
+        } else {
+            prefer_a
+        };
+        (on_a, k)
+    } else if lead < sc.pull_ahead_to as i64 {
+        (true, rng.range(3, 25) as u32)
+    } else {
+        sc.done = true;
+        (true, 1)
+    };
+    let mut parent = if on_a { sc.a_tip } else { sc.b_tip };
+    for _ in 0..k {
+        sc.queue.push_back(Event::Mine(MineSpec {
+            id: next_id,
+            parent,
+            seed: rng.next_u64(),
+            ntx: 0,
+            dt: 1300,
+            difficulty: 0,
+            special: Special::None,
+            mutation: Mutation::None,
+            remine: 0,
+        }));
+        parent = next_id;
+        next_id += 1;
+    }
+    if on_a {
+        sc.a_tip = parent;
+        sc.a_len += k;
+    } else {
+        sc.b_tip = parent;
+        sc.b_len += k;
+    }
+    // sync: fetch, deliver, process (+ ingest) until everything is in
+    let rounds = k / 100 + 2;
+    for _ in 0..rounds {
+        sc.queue.push_back(Event::Heartbeat { pause_at: 0 });
+        sc.queue.push_back(Event::Deliver {
+            task: 0,
+            reply: ReplySpec::Honest {
+                max_blocks: 120,
+                max_next: 0,
+                page: 2_000_000,
+                lag: 0,
+                include_invalid: false,
+            },
+            pause_at: 0,
+        });
+        sc.queue.push_back(Event::Heartbeat { pause_at: 0 });
+    }
+    sc.queue.push_back(Event::Heartbeat { pause_at: 0 });
+    sc.queue.pop_front().unwrap()
+}
+
 /// Draws the next event.
-pub fn next_event(sw: &Swarm, w: &World, rng: &mut Rng) -> Event {
+pub fn next_event(sw: &mut Swarm, w: &World, rng: &mut Rng) -> Event {
+    if sw.script.is_some() {
+        return long_next(sw, w, rng);
+    }
+    let sw: &Swarm = sw;
     let mut weights = sw.weights;
     if w.tasks.is_empty() {
         weights[2] = 0;
